@@ -175,6 +175,11 @@ lemma("dim_vkron", [a, b], z3.And(rows(vkron(a, b)) == rows(a) * rows(b), cols(v
 lemma("dim_vksum", [a, b], z3.And(rows(vksum(a, b)) == rows(a) * rows(b), cols(vksum(a, b)) == 1), [vksum(a, b)], "definition")
 lemma("dim_vcat", [a, b], z3.And(rows(vcat(a, b)) == rows(a) + rows(b), cols(vcat(a, b)) == 1), [vcat(a, b)], "definition")
 lemma("dim_vrep", [a, n], z3.And(rows(vrep(a, n)) == n * rows(a), cols(vrep(a, n)) == 1), [vrep(a, n)], "definition")
+# squareness propagates without any non-linear integer reasoning
+lemma("sq_rep", [a, n], z3.Implies(sq(a), sq(rep(a, n))), [rep(a, n)], "n*r = n*c when r = c")
+lemma("sq_kron", [a, b], z3.Implies(z3.And(sq(a), sq(b)), sq(kron(a, b))), [kron(a, b)], "r1*r2 = c1*c2")
+lemma("sq_ksum", [a, b], z3.Implies(z3.And(sq(a), sq(b)), sq(ksum(a, b))), [ksum(a, b)], "r1*r2 = c1*c2")
+lemma("sq_vkron", [a, b, c, d], z3.Implies(z3.And(rows(a) == rows(c), rows(b) == rows(d)), rows(vkron(a, b)) == rows(vkron(c, d))), [vkron(a, b), vkron(c, d)], "congruence of the length")
 lemma("dim_dgk", [a, k], z3.And(cols(dgk(a, k)) == 1), [dgk(a, k)], "definition")
 
 # ---------------------------------------------------------------- ring structure
@@ -184,6 +189,8 @@ lemma("madd_assoc", [a, b, c], madd(madd(a, b), c) == madd(a, madd(b, c)), [madd
 lemma("kron_assoc", [a, b, c], kron(kron(a, b), c) == kron(a, kron(b, c)), [kron(kron(a, b), c)], ML + "Matrix.kronecker_assoc (up to reindexing)")
 lemma("ksum_assoc", [a, b, c], ksum(ksum(a, b), c) == ksum(a, ksum(b, c)), [ksum(ksum(a, b), c)], ML + "kronecker_assoc + add_assoc")
 lemma("bd_assoc", [a, b, c], bd(bd(a, b), c) == bd(a, bd(b, c)), [bd(bd(a, b), c)], ML + "Matrix.fromBlocks assoc (reindexing)")
+lemma("distrib_l", [a, b, c], mmul(a, madd(b, c)) == madd(mmul(a, b), mmul(a, c)), [mmul(a, madd(b, c))], ML + "Matrix.mul_add")
+lemma("distrib_r", [a, b, c], mmul(madd(a, b), c) == madd(mmul(a, c), mmul(b, c)), [mmul(madd(a, b), c)], ML + "Matrix.add_mul")
 lemma("eye_mul_l", [n, a], z3.Implies(rows(a) == n, mmul(eye(n), a) == a), [mmul(eye(n), a)], ML + "Matrix.one_mul")
 lemma("eye_mul_r", [n, a], z3.Implies(cols(a) == n, mmul(a, eye(n)) == a), [mmul(a, eye(n))], ML + "Matrix.mul_one")
 lemma("rm_comm", [x, y], rm(x, y) == rm(y, x), [rm(x, y)], "commutativity of multiplication in R")
@@ -401,7 +408,42 @@ lemma("herm_cjtr_mul", [a], z3.And(herm(mmul(cj(tr(a)), a)), psd(mmul(cj(tr(a)),
 lemma("herm_mul_cjtr", [a], z3.And(herm(mmul(a, cj(tr(a)))), psd(mmul(a, cj(tr(a))))), [mmul(a, cj(tr(a)))], ML + "Matrix.posSemidef_self_mul_conjTranspose")
 
 
-DEFAULT_GROUPS = ("dims", "ring", "tr", "inv", "det", "pred", "mixed")
+# ---------------------------------------------------------------- matrix functions
+_GROUP[0] = 'fn'
+HALF = z3.RealVal("1/2")
+lemma("fnm_diagm", [f, a], fnm(f, diagm(a)) == diagm(vap(f, a)), [fnm(f, diagm(a))], ML + "Matrix.exp_diagonal (same proof for any primary matrix function)")
+lemma("fnm_smul_eye", [f, x, y, n], fnm(f, smul(x, y, eye(n))) == smul(fs_re(f, x, y), fs_im(f, x, y), eye(n)),
+      [fnm(f, smul(x, y, eye(n)))], "f(c I) = f(c) I")
+lemma("fnm_eye", [f, n], fnm(f, eye(n)) == smul(fs_re(f, 1, 0), fs_im(f, 1, 0), eye(n)), [fnm(f, eye(n))], "f(I) = f(1) I")
+lemma("fnm_bd", [f, a, b], z3.Implies(z3.And(sq(a), sq(b)), fnm(f, bd(a, b)) == bd(fnm(f, a), fnm(f, b))), [fnm(f, bd(a, b))], ML + "Matrix.exp_blockDiagonal (any primary matrix function)")
+lemma("fnm_rep", [f, a, n], z3.Implies(sq(a), fnm(f, rep(a, n)) == rep(fnm(f, a), n)), [fnm(f, rep(a, n))], ML + "Matrix.exp_blockDiagonal")
+lemma("fnm_tr", [f, a], fnm(f, tr(a)) == tr(fnm(f, a)), [fnm(f, tr(a))], ML + "Matrix.exp_transpose (any primary matrix function)")
+lemma("fnm_cjtr", [f, a], z3.Implies(f_conjsym(f), fnm(f, cj(tr(a))) == cj(tr(fnm(f, a)))), [fnm(f, cj(tr(a)))], ML + "Matrix.exp_conjTranspose (needs f(conj z) = conj f(z))")
+lemma("conjsym_exp", [n], z3.And(f_conjsym(f_exp), f_conjsym(f_log)), [eye(n)], "exp/log commute with conjugation (principal branch, off the cut)")
+lemma("conjsym_pow", [x], f_conjsym(f_pow(x)), [f_pow(x)], "real powers commute with conjugation (principal branch, off the cut)")
+lemma("fnm_sim", [f, a, b], z3.Implies(z3.And(invok(a), rows(b) == rows(a)),
+                                      fnm(f, mmul(a, mmul(diagm(b), minv(a)))) == mmul(a, mmul(diagm(vap(f, b)), minv(a)))),
+      [fnm(f, mmul(a, mmul(diagm(b), minv(a))))], AS + "definition of a primary matrix function on a diagonalisable matrix: f(V D V^-1) = V f(D) V^-1 (Higham, Functions of Matrices, Def. 1.2)")
+lemma("sqrt_mul", [a], z3.Implies(sq(a), mmul(fnm(f_pow(HALF), a), fnm(f_pow(HALF), a)) == a), [fnm(f_pow(HALF), a)],
+      AS + "principal square root: sqrt(A) sqrt(A) = A (Higham, Functions of Matrices, Thm 1.29)")
+lemma("psd_sqrt", [a], z3.Implies(psd(a), psd(fnm(f_pow(HALF), a))), [psd(a), fnm(f_pow(HALF), a)], AS + "the principal square root of a PSD matrix is PSD (Horn & Johnson, Thm 7.2.6)")
+lemma("exp_ksum", [a, b], z3.Implies(z3.And(sq(a), sq(b)), fnm(f_exp, ksum(a, b)) == kron(fnm(f_exp, a), fnm(f_exp, b))), [fnm(f_exp, ksum(a, b))],
+      ML + "Matrix.exp_add_of_commute on A(x)I and I(x)B")
+lemma("pow_kron", [x, a, b], z3.Implies(z3.And(psd(a), psd(b)), fnm(f_pow(x), kron(a, b)) == kron(fnm(f_pow(x), a), fnm(f_pow(x), b))),
+      [fnm(f_pow(x), kron(a, b))], AS + "(A (x) B)^t = A^t (x) B^t for PSD factors (no branch wrap; Horn & Johnson, Topics, 4.2)")
+_GROUP[0] = 'pred'
+lemma("psd_bd", [a, b], z3.Implies(z3.And(sq(a), sq(b)), psd(bd(a, b)) == z3.And(psd(a), psd(b))), [psd(bd(a, b))], ML + "Matrix.PosSemidef blockDiagonal / principal submatrix")
+lemma("psd_rep", [a, n], z3.Implies(z3.And(sq(a), n >= 1), psd(rep(a, n)) == psd(a)), [psd(rep(a, n))], ML + "same")
+lemma("herm_bd", [a, b], z3.Implies(z3.And(sq(a), sq(b)), herm(bd(a, b)) == z3.And(herm(a), herm(b))), [herm(bd(a, b))], ML + "Matrix.IsHermitian.fromBlocks")
+lemma("herm_rep", [a, n], z3.Implies(z3.And(sq(a), n >= 1), herm(rep(a, n)) == herm(a)), [herm(rep(a, n))], ML + "same")
+lemma("psd_kron", [a, b], z3.Implies(z3.And(psd(a), psd(b)), psd(kron(a, b))), [psd(a), psd(b), kron(a, b)], ML + "Matrix.PosSemidef.kronecker")
+lemma("herm_kron", [a, b], z3.Implies(z3.And(herm(a), herm(b)), herm(kron(a, b))), [herm(a), herm(b), kron(a, b)], ML + "conjTranspose_kronecker")
+lemma("psd_diagm", [a], psd(diagm(a)) == vpos(a), [psd(diagm(a))], ML + "Matrix.posSemidef_diagonal_iff")
+lemma("vpos_sqrt", [a], z3.Implies(vpos(a), z3.And(vmul(vap(f_pow(HALF), a), vap(f_pow(HALF), a)) == a, vpos(vap(f_pow(HALF), a)))),
+      [vap(f_pow(HALF), a)], "sqrt(x)^2 = x, sqrt(x) >= 0 for x >= 0")
+lemma("vpos_real", [a], z3.Implies(vpos(a), cj(a) == a), [vpos(a)], "non-negative reals are real")
+
+DEFAULT_GROUPS = ("dims", "ring", "tr", "inv", "det", "pred", "mixed", "fn")
 
 
 def all_axioms(groups=None):
